@@ -65,6 +65,7 @@ func Describe(rr RunResult) string {
 // ShrinkAndDescribe shrinks a failing program within the budget and returns it with its failure text.
 func ShrinkAndDescribe(p *Program, hooks Hooks, checkWf bool, budget time.Duration) (*Program, string) {
 	q := Shrink(p, FailsFn(hooks, checkWf, 2), budget)
+	q = Stabilise(q, hooks, checkWf)
 	rr, _ := Run(q, hooks, checkWf, false)
 	d := Describe(rr)
 	if d == "" {
@@ -75,4 +76,38 @@ func ShrinkAndDescribe(p *Program, hooks Hooks, checkWf bool, budget time.Durati
 		return p, ""
 	}
 	return q, fmt.Sprintf("%s [%d ops after shrinking; %s]", d, len(q.Ops), q.Cfg.String())
+}
+
+// failsEvery reports whether the program fails in each of n runs.
+func failsEvery(p *Program, hooks Hooks, checkWf bool, n int) bool {
+	one := FailsFn(hooks, checkWf, 1)
+	for i := 0; i < n; i++ {
+		if !one(p) {
+			return false
+		}
+	}
+	return true
+}
+
+// Stabilise makes a shrunk failing program replay reliably when its failure depends on background timing (typically:
+// a table compaction must have finished before the read that shows the wrong answer).  If the program does not fail
+// in each of three runs, its SETTLED twin (a wait-for-idle after every write, CompactRange and commit) is tried; when
+// that fails in each of three runs it is returned instead.  Otherwise the program is returned unchanged.
+func Stabilise(q *Program, hooks Hooks, checkWf bool) *Program {
+	if failsEvery(q, hooks, checkWf, 3) {
+		return q
+	}
+	st := *q
+	st.Ops = nil
+	for _, op := range q.Ops {
+		st.Ops = append(st.Ops, op)
+		switch op.Kind {
+		case OpPut, OpDelete, OpBatch, OpCompact, OpTxnCommit, OpReopen:
+			st.Ops = append(st.Ops, Op{Kind: OpWaitIdle})
+		}
+	}
+	if failsEvery(&st, hooks, checkWf, 3) {
+		return &st
+	}
+	return q
 }
